@@ -4,7 +4,7 @@
    Conn.Close (the harness cuts real sessions at every byte and ends them by DISCONNECT, abrupt
    close, malformed and panicking packets). *)
 From Emitter Require Import Lib.Base Model.MsgCodec Model.Channel Model.Key Model.Trie Model.Store Model.Broker
-     Spec.PubSub Spec.BrokerSpec Proofs.BrokerProofs Proofs.BrokerStep.
+     Spec.PubSub Spec.BrokerSpec Proofs.BrokerProofs Proofs.BrokerStep Proofs.BrokerInv.
 
 (* the slot is gone (nothing is delivered to it any more: delivery goes through conn_of_sub), exactly
    the connection's counted subscriptions - ordinary, presence-change and link-created ones all live
@@ -40,6 +40,23 @@ Theorem C08_bookkeeping_follows_index : forall {I} (X : ixops I) (b : @broker I)
   /\ b_queue (subscribe_ev X b i c ssid ch) = b_queue b ++ [Notif true (0 :: presenceW :: ssid) ch i (cn_user c)].
 Proof. intros I X b i c ssid ch H. destruct (subscribe_ev_effect X b i c ssid ch H) as (A & B & _). auto. Qed.
 Print Assumptions C08_bookkeeping_follows_index.
+
+(* ... and that bookkeeping invariant (BI: counters and index agree, no filter counted twice,
+   connection ids distinct) holds in EVERY state reachable from the empty broker by any history of
+   requests (new connections take a free slot and a fresh id), for every index all of whose filters
+   are admissible - so in every reachable state a connection that ends leaves nothing behind *)
+Theorem C08_bookkeeping_invariant_of_all_histories : forall {I} (X : ixops I) abs inv okf, IxSpec X abs inv okf -> (forall f, okf f) ->
+  forall e subs l, NoDup subs -> wf_run X e (broker0 X subs) l -> BI abs inv (run_from X e (broker0 X subs) l).
+Proof. intros I X abs inv okf HS Hok. exact (BI_reachable X abs inv okf HS Hok). Qed.
+Print Assumptions C08_bookkeeping_invariant_of_all_histories.
+
+Theorem C08_nothing_left_behind_in_reachable_states : forall {I} (X : ixops I) abs inv okf, IxSpec X abs inv okf ->
+  forall e (b : @broker I) i c, BI abs inv b -> get_conn (b_conns b) (N.to_nat i) = Some c ->
+  let r := close_conn X e b i c in
+  (forall f, ~ In (f, cn_sub c) (abs (b_trie r)))
+  /\ (forall f s, s <> cn_sub c -> (In (f, s) (abs (b_trie r)) <-> In (f, s) (abs (b_trie b)))).
+Proof. intros I X abs inv okf HS. exact (BI_close_leaves_nothing X abs inv okf HS). Qed.
+Print Assumptions C08_nothing_left_behind_in_reachable_states.
 
 (* the last will is published exactly once, to the current subscribers of its channel, iff it was
    supplied with a key that allows publishing there *)
